@@ -365,6 +365,30 @@ def empty_group_skips(ctx, rep, rule: str) -> None:
         rep.ob(rule, "empty-group:skip-before-step-counter", (not touched) and dom, step.loc(tnode.ast), f"`if {ast.unparse(tnode.ast.test)}` — empty path reaches the next group without incrementing STEP or running the group step: {not touched}; the test dominates the increment: {dom}", sample=True)
 
 
+def every_group_visited(ctx, rep, rule: str) -> None:
+    """step() must give every parameter group its turn: the per-group loop is left only by exhausting it (a group without
+    gradients is skipped with `continue`; a `break` / `return` would also skip all later groups, which do have gradients)."""
+    repo = ctx.repo
+    step = repo.method(DS, "step")
+    loops = [n for n in A.walk_no_nested(step.node) if isinstance(n, ast.For) and any(isinstance(x, ast.Attribute) and x.attr in ("param_groups", "_per_group_state_lists") for x in ast.walk(n.iter))]
+    rep.floor(rule, "per-group loop in step()", len(loops), 1)
+    for loop in loops:
+        exits = []
+        def scan(stmts, depth):
+            for st in stmts:
+                if isinstance(st, ast.Return) or (isinstance(st, ast.Break) and depth == 0):
+                    exits.append(st)
+                if isinstance(st, (ast.FunctionDef, ast.AsyncFunctionDef, ast.ClassDef)):
+                    continue
+                inner = depth + (1 if isinstance(st, (ast.For, ast.While)) else 0)
+                for fld in ("body", "orelse", "finalbody"):
+                    scan(getattr(st, fld, []) or [], inner if fld == "body" else depth)
+                for h in getattr(st, "handlers", []) or []:
+                    scan(h.body, depth)
+        scan(loop.body, 0)
+        rep.ob(rule, "every-group-visited", not exits and not loop.orelse, step.loc(exits[0] if exits else loop), "the loop over the parameter groups in step() is left only by exhaustion" + (f"; found {[type(e).__name__ + '@' + str(e.lineno) for e in exits]}: every later group is skipped as well — its parameters have gradients but are not updated" if exits else ""), sample=True)
+
+
 # ------------------------------------------------------------------------------------------------ C04.5
 def selector_construction(ctx, rep, rule: str) -> None:
     repo = ctx.repo
@@ -434,7 +458,7 @@ def run(ctx, rep) -> None:
     rep.rule("C04.1", "index-space typing: every compress_list / zip / multi-list foreach / list constructor / index use combines lists of one index space; names agree with inferred spaces")
     rep.rule("C04.2", "mask completeness: every masked list is re-derived from its unmasked twin with the right selector, under a guard matching its existence; re-mask skipped only when the remembered selector is current")
     rep.rule("C04.3", "in-place writes on the step path target masked or fresh lists only")
-    rep.rule("C04.4", "an empty masked gradient list skips the group before the step counter is touched")
+    rep.rule("C04.4", "an empty masked gradient list skips the group (and only that group) before the step counter is touched")
     rep.rule("C04.5", "the gradient selector gets one entry per block of every parameter on every path")
     mods = {"distributed_shampoo.distributed_shampoo", "distributed_shampoo.utils.shampoo_preconditioner_list", "distributed_shampoo.utils.shampoo_distributor", "distributed_shampoo.utils.shampoo_fsdp_distributor", "distributed_shampoo.utils.shampoo_fully_shard_distributor"}
     rep.attempt("typing_sites", typing_sites, ctx, rep, "C04.1", None, {"distributed_shampoo.distributed_shampoo": 10, "distributed_shampoo.utils.shampoo_preconditioner_list": 10, "distributed_shampoo.utils.shampoo_distributor": 2})
@@ -442,6 +466,7 @@ def run(ctx, rep) -> None:
     rep.attempt("mask_completeness", mask_completeness, ctx, rep, "C04.2")
     rep.attempt("writes_to_masked_only", writes_to_masked_only, ctx, rep, "C04.3")
     rep.attempt("empty_group_skips", empty_group_skips, ctx, rep, "C04.4")
+    rep.attempt("every_group_visited", every_group_visited, ctx, rep, "C04.4")
     rep.attempt("selector_construction", selector_construction, ctx, rep, "C04.5")
     rep.assume("seeds of the index-space typing (sv/spaces.py): _global_blocked_params:G, _distributor_selector:G->L, _global_grad_selector:G->GM, _local_grad_selector:L->LM, _merge_and_block_gradients():LM")
     rep.assume("bit-for-bit preservation of untouched tensors follows from C04.3 plus torch semantics (not decided here)")
